@@ -362,6 +362,11 @@ def random_spec(rng, **o):
         s.template_ind = ind.astype(g('dtype_ind', 'int32'))
     if g('wm', True):
         wm = np.eye(nc) + rng.normal(0, 0.08, size=(nc, nc))
+        if g('wm_scale', 0):
+            # a recording scaled in other units: whitening entries of magnitude wm_scale (its inverse: 1 / wm_scale, off-diagonals
+            # far below any absolute tolerance), templates scaled alike so that unwhitened values stay of order 1
+            wm = wm * g('wm_scale', 0)
+            s.templates = (s.templates.astype(np.float64) * g('wm_scale', 0)).astype(s.templates.dtype)
         s.wm = wm
     if g('wmi_file', False):
         s.wmi_file = np.linalg.inv(s.wm_eff)
